@@ -1201,6 +1201,21 @@ v("C12", "benign-guard-via-membership", "benign", BASE,
   '''            return self.node.operating_state == NodeOperatingState.ON''',
   '''            return self.node.operating_state in (NodeOperatingState.ON,)''', None, "membership form of the same predicate")
 
+v("C12", "revert-zero-duration-reset-never-restarts", "break", BASE,
+  '''            # a reset is a shutdown followed by an automatic start: on the timed path apply_timestep issues it, here it is due now
+            if self.config.is_resetting:
+                self.config.is_resetting = False
+                self.power_on()
+            return True''',
+  '''            return True''', "R12.7", "instant shutdown ignores the reset flag")
+v("C12", "software-ticks-while-off", "break", BASE,
+  '''            for service_id in self.services:
+                self.services[service_id].apply_timestep(timestep=timestep)''',
+  '''            pass
+        for service_id in self.services:
+            self.services[service_id].apply_timestep(timestep=timestep)
+        if self.operating_state == NodeOperatingState.ON:''', "R12.7", "services tick whatever the power state")
+
 # ------------------------------------------------------------------------------------------------ C13
 SERVICE = P + "simulator/system/services/service.py"
 APPLICATION = P + "simulator/system/applications/application.py"
